@@ -121,9 +121,17 @@ def sweep(prop, tier, verif_seed):
                     break
             if not viols:
                 raise K.HarnessError('genm3 tool died and no single zone/year reproduces it:\n' + san)
-        info = {'source': recon, 'zones_swept': int(summ.group(1)) if summ else None,
+        hook_line = False
+        try:
+            with open(os.path.join(B.repo_src(), 'ace_time', 'BasicZoneProcessor.h')) as f:
+                hook_line = 'ace_time_verif_basic_dropped++' in f.read()
+        except OSError:
+            pass
+        info = {'source': recon,
+                'basic_clause': ('checked through the guarded dropped-transition counter' if hook_line else
+                                 'NOT CHECKED: the guarded counter is no longer in BasicZoneProcessor.h'), 'zones_swept': int(summ.group(1)) if summ else None,
                 'zone_year_instant_checks': int(summ.group(2)) if summ else None,
-                'years': '1998..2052 (asserted for 2000..2049), four instants per year, by epoch seconds and by local date-time',
+                'years': '1998..2052 (asserted wherever the processor accepts the year), four instants per year, by epoch seconds and by local date-time',
                 'modes': ['fresh processor per year', 'one processor walking the years up and then down (cumulative mark)'],
                 'build': 'ASan+UBSan, ACE_TIME_VERIF_HOOKS (basic dropped-transition counter)',
                 'exhaustive': not viols, 'wall_s': round(time.time() - t0, 1)}
